@@ -15,7 +15,7 @@ def new_literals(gen_inv, pinned_inv):
         m = re.search(r'def decisionBudget[^\[]*\[(.*?)\]\s*\n', s, re.S)
         out = {}
         for mod, item, n in re.findall(r'\("(\w+)", "([^"]+)", (\d+)\)', m.group(1) if m else ''):
-            if item.startswith('lit:'): out[(mod, int(item[4:]))] = int(n)
+            if item.startswith(('lit:', 'sml:')): out[(mod, int(item[4:]))] = int(n)
         return out
     g, p = lits(gen_inv), lits(pinned_inv)
     return sorted(set(n for (mod, n), c in g.items() if c > p.get((mod, n), 0)))
